@@ -288,6 +288,7 @@ static int gnutls_verify_sha_pem(jwt_t *jwt, const char *head,
 		if (gnutls_privkey_import_x509_raw(privkey, &cert_dat,
 						   GNUTLS_X509_FMT_PEM,
 						   NULL, 0)) {
+			gnutls_privkey_deinit(privkey);
 			VERIFY_ERROR("Failed importing key"); // LCOV_EXCL_LINE
 		}
 
